@@ -16,7 +16,7 @@ unsigned char dfa_random_member_of_class_of(unsigned char rep, Rng& rng) {
 }
 
 // ---------------------------------------------------------------- G-COVER
-uint64_t gcover_count() { return (uint64_t)URIREF_BIG_NSTATES * 256 * 3; }
+uint64_t gcover_count() { return (uint64_t)URIREF_BIG_NSTATES * 256 * 4; }
 static Str big_access(unsigned q) { return uriref_big_access[q] ? Str(uriref_big_access[q], uriref_big_access_len[q]) : Str(); }
 static Str big_completion(unsigned q) { return uriref_big_completion[q] ? Str(uriref_big_completion[q], uriref_big_completion_len[q]) : Str(); }
 // a longer access string: follow the BFS access string but take every self-loop / short cycle a few times
@@ -37,13 +37,20 @@ static Str pumped_access(unsigned q, Rng& rng) {
     return out;
 }
 Str gcover_case(uint64_t idx, Rng& rng) {
-    unsigned variant = (unsigned)(idx % 3); idx /= 3;
+    unsigned variant = (unsigned)(idx % 4); idx /= 4;
     unsigned c = (unsigned)(idx % 256); unsigned q = (unsigned)(idx / 256);
     if (q >= URIREF_BIG_NSTATES || (q != 0 && !uriref_big_access[q])) return Str(1, (char)c);
     if (uriref_big_dead[q]) return Str(1, (char)c);
     Str s = variant == 2 ? pumped_access(q, rng) : big_access(q);
     s.push_back((char)c);
     unsigned t = uriref_big_trans[q][uriref_class[c]];
+    if (variant == 3) {
+        // the text goes on after the character, also after an offending one: the recursive-descent parser does not stop
+        // where the automaton dies (e.g. dec-octet errors inside an IPv6 literal are only noticed at the next '.' or ']')
+        s += big_completion(uriref_big_dead[t] ? q : t);
+        if (rng.coin()) s += rng.coin() ? "/p?q#f" : "]:80/x";
+        return s;
+    }
     if (variant >= 1 && !uriref_big_dead[t]) s += big_completion(t);
     return s;
 }
